@@ -238,6 +238,16 @@ func NewPlaintextFormatterHook(key []byte) (*PlaintextFormatterHook, error) {
 // PreFormat handler adds (if necessary) "end of chain" marker to the entry in order
 // to cryptographically bound it to the integrity computation
 func (h *JSONFormatterHook) PreFormat(entry *log.Entry) error {
+	// "integrity" and "chain" keys of the JSON object are written by this hook after the entry has been authenticated.
+	// A field of the entry with one of these names would be authenticated and then overwritten (or taken for a chain marker
+	// by the parser), so such an entry could never be verified. Keep the field under a prefixed name, as logrus does
+	// for fields that clash with its own keys.
+	for _, key := range []string{IntegrityKey, AuditLogChainKey} {
+		if value, ok := entry.Data[key]; ok {
+			delete(entry.Data, key)
+			entry.Data["fields."+key] = value
+		}
+	}
 	// we add EndOfChain marker into entry in pre-format stage because it should be cryptographically bounded to the log entry
 	if strings.EqualFold(entry.Message, EndOfAuditLogChainMessage) {
 		entry.Data[AuditLogChainKey] = EndAuditLogChainValue
